@@ -21,6 +21,7 @@ Oracle (reference lifespan automaton; a logical clock orders events inside one v
                             served and graceful_timeout had not elapsed
   shutdown-hang             shutdown never completes although shutdown_timeout has been reached
   state-shared              connection scopes do not carry their own copy of the lifespan state
+  serve-crashed             worker_serve raised something other than LifespanFailureError / LifespanTimeoutError
 """
 from __future__ import annotations
 
@@ -62,6 +63,7 @@ STARTUPS = {
     "raise_after_recv": [("recv",), ("gate", "ls"), ("raise",)],
     "hang": [("recv",), ("gate", "never")],
     "return_early": [("recv",), ("return",)],
+    "return_at_once": [("return",)],
     "unknown_msg": [("recv",), ("send_strict", {"type": "lifespan.bogus"})],
 }
 SHUTDOWNS = {
@@ -179,6 +181,12 @@ def oracle(w: Any, params: Any) -> List[dict]:
                 out.append(V("startup-failure-ignored", f"{tag}:served", "a request scope was created although startup never completed"))
         if su == "unknown_msg" and reqs and life.outcome == "running":
             out.append(V("served-before-startup", f"{tag}:undecided", "served while the lifespan app is still undecided"))
+    # --- whatever the lifespan application does, worker_serve only ever fails with the documented lifespan errors
+    if w.serve_result is not None and w.serve_result.startswith("exc:"):
+        kind = w.serve_result.split(":")[1]
+        names = set(kind[kind.index("[") + 1:-1].split(",")) if "[" in kind else {kind}
+        if not names <= {"LifespanFailureError", "LifespanTimeoutError"}:
+            out.append(V("serve-crashed", f"{tag}:{kind}", f"worker_serve raised {w.serve_result}"))
     # --- shutdown
     if su in SERVES and w.shutdown_at is not None and decided is not None:
         t0 = w.shutdown_at
